@@ -212,7 +212,12 @@ impl EllipseContains {
         if self.a == self.b {
             x + y < self.threshold
         } else {
-            self.b * x + self.a * y < self.threshold
+            // The products exceed the `u64` range for points that are far away from the ellipse.
+            // Such points are outside the ellipse, which the saturated sum reports correctly.
+            self.b
+                .saturating_mul(x)
+                .saturating_add(self.a.saturating_mul(y))
+                < self.threshold
         }
     }
 }
